@@ -115,6 +115,9 @@ NoxSlope(x) == R(4 * (x.f1 * x.e1 + x.f2 * x.e2 + x.f3 * x.e3 + x.f4 * x.e4) - S
 \* evaluated at the flows 1 g/s, 0.1, 1, 10 kg/s; a non-positive flow is evaluated as 10 g/s (exponent -2)
 NoxIntercept(x) == Div(Sub(I(SumE(x)), Mul(NoxSlope(x), I(SumF(x)))), I(4))
 NoxAt(x, e) == Add(Mul(NoxSlope(x), I(e)), NoxIntercept(x))
+\* ArgumentsAreValues: every operator of this module is a function of its arguments; on the implementation side that means
+\* the arrays and tables handed to an index function are read, never written (the fuel-flow array of a flight is used for
+\* NOx, then HC, then CO) - the harness compares every array argument before and after the call
 NoxEvalExps == <<-3, -1, 0, 1, -2>>
 NoxSpec == Start(NoxCases) /\ [][Step([slope |-> NoxSlope(c), logs |-> [k \in 1..5 |-> NoxAt(c, NoxEvalExps[k])]])]_vars
 \* a positive flow is never replaced: the fitted value at 1 g/s differs from the one at 10 g/s whenever the slope is not zero
